@@ -121,7 +121,12 @@ func cmdVerify(args []string) {
 	repo := fs.String("repo", "/repo", "repository")
 	cdir := fs.String("contracts", "", "contracts dir (default: repo)")
 	smtlog := fs.String("smtlog", "", "log SMT commands to file")
+	replay := fs.Bool("replay", false, "extract and replay counterexamples")
 	fs.Parse(args)
+	if *replay {
+		globalCexHook = replayHook
+		replayRepo = *repo
+	}
 	P, err := loadProgram(*repo)
 	must(err)
 	if *cdir == "" {
@@ -189,6 +194,9 @@ func printResult(r *FnResult, verbose bool) {
 			fmt.Printf("   FAIL %s  (inst %d, sat %d, undecided %d) %s\n", o.Name, o.Inst, o.Failed, o.Undec, o.FirstPos)
 			if verbose {
 				fmt.Println("      ", strings.ReplaceAll(o.Detail, "\n", "\n       "))
+				if o.Cex != nil {
+					fmt.Println("       CEX reproduced=", o.Cex.Reproduced, "\n", o.Cex.Text)
+				}
 				if d := os.Getenv("GOVC_DEBUG_DIR"); d != "" {
 					os.MkdirAll(d, 0o755)
 					dbgN++
